@@ -67,9 +67,11 @@ Record ost := OS {
   o_foreign : list (N * N * bool);    (* (tx, rid, after expiry): somebody else changed rid after tx did *)
   o_ddlh : list N; o_ddlb : list N;   (* hash / B-tree indexes created while some open tx had changed rows *)
   o_now : N;
-  o_known : list N
+  o_known : list N;
+  o_broken : list N     (* open transactions one of whose statements failed half-way (index budget): their partial changes and
+                           the index entries of the rows they touched stay inconsistent until they are rolled back *)
 }.
-Definition o0 : ost := OS [] [] [] [] [] [] 1000 [].
+Definition o0 : ost := OS [] [] [] [] [] [] 1000 [] [].
 
 Definition find_touch (l : list touch) (tx rid : N) : option touch :=
   find (fun t => N.eqb (t_tx t) tx && N.eqb (t_rid t) rid) l.
@@ -102,9 +104,13 @@ Definition finish (o : ost) (tx : N) : ost :=
   OS (set_remove tx (o_active o)) (set_add tx (o_done o))
      (filter (fun t => negb (N.eqb (t_tx t) tx)) (o_touch o))
      (filter (fun f => negb (N.eqb (fst (fst f)) tx)) (o_foreign o))
-     (o_ddlh o) (o_ddlb o) (o_now o) (o_known o).
+     (o_ddlh o) (o_ddlb o) (o_now o) (o_known o) (o_broken o).
+Definition unbreak (o : ost) (tx : N) : ost :=
+  OS (o_active o) (o_done o) (o_touch o) (o_foreign o) (o_ddlh o) (o_ddlb o) (o_now o) (o_known o) (set_remove tx (o_broken o)).
+Definition break (o : ost) (tx : N) : ost :=
+  OS (o_active o) (o_done o) (o_touch o) (o_foreign o) (o_ddlh o) (o_ddlb o) (o_now o) (o_known o) (set_add tx (o_broken o)).
 Definition add_known (o : ost) (k : N) : ost :=
-  OS (o_active o) (o_done o) (o_touch o) (o_foreign o) (o_ddlh o) (o_ddlb o) (o_now o) (set_add k (o_known o)).
+  OS (o_active o) (o_done o) (o_touch o) (o_foreign o) (o_ddlh o) (o_ddlb o) (o_now o) (set_add k (o_known o)) (o_broken o).
 Definition none_held (tx : N) (d : dump) : bool :=
   forallb (fun h => match h with Some a => negb (N.eqb a tx) | None => true end) (d_holders d).
 
@@ -126,7 +132,7 @@ Fixpoint on_changes (ltmo : N) (who : option N) (pre : dump) (ch : list N) (o : 
                       end
                   | None => o_touch o
                   end in
-        on_changes ltmo who pre r (OS (o_active o) (o_done o) tl fo (o_ddlh o) (o_ddlb o) (o_now o) (o_known o))
+        on_changes ltmo who pre r (OS (o_active o) (o_done o) tl fo (o_ddlh o) (o_ddlb o) (o_now o) (o_known o) (o_broken o))
   end.
 
 (* rollback of tx: every row it changed is back to its first pre-image and nothing else moved -- unless somebody
@@ -162,23 +168,27 @@ Definition touch_more (tx : N) (pre : dump) (ids : list N) (o : ost) : ost :=
     match find_touch (o_touch o) tx rid with
     | Some t => OS (o_active o) (o_done o)
                    ((tx, rid, t_pre t, o_now o) :: filter (fun t' => negb (N.eqb (t_tx t') tx && N.eqb (t_rid t') rid)) (o_touch o))
-                   (o_foreign o) (o_ddlh o) (o_ddlb o) (o_now o) (o_known o)
+                   (o_foreign o) (o_ddlh o) (o_ddlb o) (o_now o) (o_known o) (o_broken o)
     | None => OS (o_active o) (o_done o) ((tx, rid, row_at pre rid, o_now o) :: o_touch o)
-                 (o_foreign o) (o_ddlh o) (o_ddlb o) (o_now o) (o_known o)
+                 (o_foreign o) (o_ddlh o) (o_ddlb o) (o_now o) (o_known o) (o_broken o)
     end) ids o.
 
-Definition ostep (V ltmo : N) (o : ost) (op : rop) (ret : list N) (pre post : dump) : option ost :=
+Definition ostep (bud : bool) (V ltmo : N) (o : ost) (op : rop) (ret : list N) (pre post : dump) : option ost :=
   let ch := changed pre post in
   let o1 :=
     match op with
-    | RBegin => match ret with [tx] => if is_nil ch then Some (OS (set_add tx (o_active o)) (o_done o) (o_touch o) (o_foreign o) (o_ddlh o) (o_ddlb o) (o_now o) (o_known o)) else None | _ => None end
+    | RBegin => match ret with [tx] => if is_nil ch then Some (OS (set_add tx (o_active o)) (o_done o) (o_touch o) (o_foreign o) (o_ddlh o) (o_ddlb o) (o_now o) (o_known o) (o_broken o)) else None | _ => None end
     | RInsert _ _ _ | RUpdate _ _ _ _ | RDelete _ _ =>
         match actor op with
         | Some tx =>
             (* finished transactions cannot be used again *)
             if mem tx (o_done o) then (if lN_eqb ret [1] && is_nil ch then Some o else None)
             else if ok_ret ret then option_map (touch_more tx pre (matched_ids op pre)) (on_changes ltmo (Some tx) pre ch o)
+            (* [6] = the statement failed half-way (B-tree entry budget): what it did so far belongs to tx and must go
+               away when tx is rolled back; until then tx is "broken" *)
+            else if lN_eqb ret [6] then option_map (fun o' => break (touch_more tx pre (matched_ids op pre) o') tx) (on_changes ltmo (Some tx) pre ch o)
             else if is_nil ch then Some o else None        (* a refused statement changes nothing *)
+        (* outside a transaction a failed statement is rolled back internally: nothing may remain of it *)
         | None => if ok_ret ret then on_changes ltmo None pre ch o else if is_nil ch then Some o else None
         end
     | RCommit tx =>
@@ -191,24 +201,30 @@ Definition ostep (V ltmo : N) (o : ost) (op : rop) (ret : list N) (pre post : du
              | [1] => if is_nil ch then Some o else None
              | _ => if negb (none_held tx post) then None
                     else match on_rollback tx pre post (all_ids pre post) o with
-                         | Some o' => Some (finish o' tx)
+                         | Some o' =>
+                             (* with a small B-tree entry budget the undo itself can run out of entries when other writers
+                                used up what the transaction had freed: rollback then reports RollbackFailed and cannot
+                                re-create the row's B-tree entries (known class 2); the ROWS must be restored all the same *)
+                             if bud && lN_eqb ret [3] then Some (add_known (break (finish o' tx) 0) 2)
+                             else Some (unbreak (finish o' tx) tx)
                          | None => None
                          end
              end
     | RCreateIndex col =>
         if negb (is_nil ch) then None
         else if ok_ret ret && negb (is_nil (o_touch o))
-        then Some (OS (o_active o) (o_done o) (o_touch o) (o_foreign o) (set_add col (o_ddlh o)) (o_ddlb o) (o_now o) (o_known o)) else Some o
+        then Some (OS (o_active o) (o_done o) (o_touch o) (o_foreign o) (set_add col (o_ddlh o)) (o_ddlb o) (o_now o) (o_known o) (o_broken o)) else Some o
     | RCreateBtree col =>
         if negb (is_nil ch) then None
         else if ok_ret ret && negb (is_nil (o_touch o))
-        then Some (OS (o_active o) (o_done o) (o_touch o) (o_foreign o) (o_ddlh o) (set_add col (o_ddlb o)) (o_now o) (o_known o)) else Some o
-    | RAdvance d => if is_nil ch then Some (OS (o_active o) (o_done o) (o_touch o) (o_foreign o) (o_ddlh o) (o_ddlb o) (o_now o + d) (o_known o)) else None
+        then Some (OS (o_active o) (o_done o) (o_touch o) (o_foreign o) (o_ddlh o) (set_add col (o_ddlb o)) (o_now o) (o_known o) (o_broken o)) else Some o
+    | RAdvance d => if is_nil ch then Some (OS (o_active o) (o_done o) (o_touch o) (o_foreign o) (o_ddlh o) (o_ddlb o) (o_now o + d) (o_known o) (o_broken o)) else None
     | RCleanupLocks => if is_nil ch then Some o else None
     end in
   match o1 with
   | None => None
   | Some o2 =>
+      if negb (is_nil (o_broken o2)) then Some o2 else
       match index_check o2 (d_rows post) (queries V) (d_q post) false with
       | None => None
       | Some true => Some (add_known o2 1)
@@ -216,11 +232,11 @@ Definition ostep (V ltmo : N) (o : ost) (op : rop) (ret : list N) (pre post : du
       end
   end.
 
-Fixpoint owalk (V ltmo : N) (o : ost) (ops : list rop) (os : list obs) (pre : dump) : option ost :=
+Fixpoint owalk (bud : bool) (V ltmo : N) (o : ost) (ops : list rop) (os : list obs) (pre : dump) : option ost :=
   match ops, os with
   | op :: ops', (ret, post) :: os' =>
-      match ostep V ltmo o op ret pre post with
-      | Some o' => owalk V ltmo o' ops' os' post
+      match ostep bud V ltmo o op ret pre post with
+      | Some o' => owalk bud V ltmo o' ops' os' post
       | None => None
       end
   | _, _ => Some o
@@ -232,7 +248,7 @@ Definition check_rel (c : c09_case) : N :=
   let '(V, Rn, ltmo0, ops, os) := c in
   let e0 := einit ltmo0 in
   if negb (Nat.eqb (length ops) (length os)) then 9
-  else match owalk V ltmo0 o0 ops os (model_dump V Rn e0) with
+  else match owalk false V ltmo0 o0 ops os (model_dump V Rn e0) with
        | None => V_VIOLATION
        | Some o =>
            if negb (model_ok V Rn e0 ops os) then V_MISMATCH
@@ -240,4 +256,14 @@ Definition check_rel (c : c09_case) : N :=
                 | [] => V_OK
                 | k :: _ => V_KNOWN (fold_left N.min (o_known o) k)
                 end
+       end.
+
+(* cases run with a small B-tree entry budget (RelationalConfig::with_max_btree_entries): the model has no budget,
+   so only the property oracle is evaluated on the implementation's observations *)
+Definition check_budget (c : c09_case) : N :=
+  let '(V, Rn, ltmo0, ops, os) := c in
+  if negb (Nat.eqb (length ops) (length os)) then 9
+  else match owalk true V ltmo0 o0 ops os (model_dump V Rn (einit ltmo0)) with
+       | None => V_VIOLATION
+       | Some o => match o_known o with [] => V_OK | k :: _ => V_KNOWN (fold_left N.min (o_known o) k) end
        end.
